@@ -26,7 +26,18 @@ func (vc *VC) specEnv(fr *Frame, st, old *State, extra map[string]Val) *SpecEnv 
 		} else if fr.fn.Origin() != nil && fr.fn.Origin().Pkg != nil {
 			env.pkg = fr.fn.Origin().Pkg.Pkg
 		}
+		for k, v := range fr.locals {
+			if v.Sort == "addr" && v.Addr != nil {
+				lv := vc.load(st, v.Addr)
+				env.vars[k] = lv
+				continue
+			}
+			env.vars[k] = v
+		}
 		for k, v := range fr.params {
+			env.vars[k] = v
+		}
+		for k, v := range fr.idxVals {
 			env.vars[k] = v
 		}
 	}
